@@ -44,3 +44,18 @@ Definition opt_of_sx {T} (f : sx -> option T) (x : sx) : option (option T) :=
 
 (* error marker understood by the harness *)
 Definition sx_bad : sx := L [A 999999; A 999999].
+
+(* structural equality on sx (used by the extraction cross-check: the kernel evaluates the
+   model on sampled cases with vm_compute and compares with what the OCaml driver printed) *)
+Fixpoint sx_eqb (a b : sx) : bool :=
+  match a, b with
+  | A x, A y => N.eqb x y
+  | L l1, L l2 =>
+    (fix go (l1 l2 : list sx) : bool :=
+       match l1, l2 with
+       | [], [] => true
+       | x :: r1, y :: r2 => sx_eqb x y && go r1 r2
+       | _, _ => false
+       end) l1 l2
+  | _, _ => false
+  end.
